@@ -610,8 +610,10 @@ func (g *pipeGen) genSpec(rng *Rng, secret bool, layer *pipeDir) pipeGenSpec {
 		for i := 0; i < nf; i++ {
 			pth := fmt.Sprintf("f%d-%d.txt", g.srcN, i)
 			spec := pth
-			if rng.Chance(50) {
-				spec = fmt.Sprintf("fk%d=%s", i, pth)
+			if rng.Chance(60) {
+				// keys shared with the literal keys: a merge over another generator may move a key between
+				// data and binaryData
+				spec = fmt.Sprintf("%s=%s", rng.Pick([]string{"a", "b", "key", "fk"}), pth)
 			}
 			var content []byte
 			switch rng.Intn(4) {
